@@ -83,10 +83,34 @@ def parse_job(job):
             worst, worst_src = dt, src
     return {"outcome": "ok", "parsed": n, "secs": round(time.time() - t0, 3), "worst": round(worst, 4), "worst_source": worst_src[:200], "worst_len": len(worst_src)}
 
+def analyze_job(job):
+    import liquid
+    Loader = liquid.CachingDictLoader if job.get("caching") else DictLoader
+    env = Environment(loader=Loader(job["templates"]))
+    add_tags_and_filters(env)
+    t0 = time.time()
+    try:
+        if job.get("caching"):
+            for k in job["templates"]:
+                env.get_template(k)
+        t = env.get_template("t0")
+        api = job["api"]
+        if api == "analyze":
+            r = t.analyze(); n = len(r.variables)
+        elif api == "analyze_async":
+            r = asyncio.run(t.analyze_async()); n = len(r.variables)
+        else:
+            r = env.analyze_tags_from_string(job["templates"]["t0"]); n = len(r.all_tags)
+        res = {"outcome": "ok", "len": n}
+    except BaseException as e:
+        res = {"outcome": classify(e)}
+    res["secs"] = round(time.time() - t0, 3)
+    return res
+
 jobs = json.load(sys.stdin)
 out = []
 for job in jobs:
-    out.append(parse_job(job) if job.get("job") == "parse" else render_job(job))
+    out.append(parse_job(job) if job.get("job") == "parse" else analyze_job(job) if job.get("job") == "analyze" else render_job(job))
     sys.stdout.write(json.dumps(out[-1]) + "\n"); sys.stdout.flush()
 '''
 
@@ -250,9 +274,17 @@ def parse_sources(ck):
     allp = list(range(len(c03.PIECES)))
     for _ in range(300 if ck.quick else 3000):
         srcs.append(c03.source(tuple(rng.choices(allp, k=rng.randrange(1, 40)))))
-    srcs.append("{% if x %}" * 25 + "{% if" + " x" * 20000 + " %}")
-    srcs.append("{{ " + "a." * 20000 + "b }}")
+    srcs.append("{% if x %}" * 25 + "{% if" + " x" * 5000 + " %}")
+    srcs.append("{{ " + "a." * 5000 + "b }}")
     srcs.append("a{% endif %}" * 5000)
+    # expressions nested deeper than the Python stack: brackets, ranges, and / or chains, parentheses, not chains, filter arguments
+    for n in (900, 1500, 5000):
+        srcs += ["{{ a" + "[" * n + " }}", "{{ a" + "[b" * n + "]" * n + " }}", "{{ " + "(1.." * n + "2" + ")" * n + " }}",
+                 "{% for i in " + "(1.." * n + "2" + ")" * n + " %}x{% endfor %}", "{% if a " + "and a " * n + "%}x{% endif %}",
+                 "{% if a " + "or a " * n + "%}x{% endif %}", "{% if " + "(" * n + "a" + ")" * n + " %}x{% endif %}",
+                 "{% if " + "not " * n + "a %}x{% endif %}", "{{ a | append: b" + "[c" * n + "]" * n + " }}",
+                 "{% if x %}" * 29 + "{{ a" + "[" * n + " }}", "{% case a %}{% when " + "b[" * n + " %}{% endcase %}",
+                 "{% assign x = a" + "[b" * n + "]" * n + " %}"]
     return srcs
 
 
@@ -400,6 +432,9 @@ def run(ck: Check) -> None:
         ck.violation("correspondence", "c09-extends-correspondence", f"extends chain {cases[i]}: engine {expected[i]}",
                      {"type": "obligation", "case": cases[i], "broken": "Terminate.base_of ~ _build_block_stacks (theorems C09_extends_*)"}, no_input=True)
 
+    # ---- F: static analysis
+    analyze_layer(ck)
+
     # ---- E: parsing finishes promptly
     srcs = parse_sources(ck)
     for lax in (False, True):
@@ -412,12 +447,59 @@ def run(ck: Check) -> None:
                          {"type": "parse", "lax": lax, "sources": srcs[:50], "budget": budget})
 
 
+def nest_src(d, inner):
+    return "{% if true %}" * d + inner + "{% endif %}" * d
+
+
+def analyze_layer(ck: Check) -> None:
+    """F: static analysis of recursive partials terminates, and a chain of partials too deep for the stack ends in a Liquid error."""
+    fams = {
+        "self-include": {"t0": "{{ a }}{% include 't0' %}"},
+        "self-render": {"t0": "{{ a }}{% render 't0' %}"},
+        "mutual": {"t0": "{{ a }}{% include 't1' %}", "t1": "{{ b }}{% render 't0' %}"},
+        "self-include-nested": {"t0": nest_src(20, "{{ a }}{% include 't0' %}")},
+        "self-extends": {"t0": "{% extends 't0' %}{% block b %}{{ a }}{% endblock %}"},
+        "circular-extends": {"t0": "{% extends 't1' %}{{ a }}", "t1": "{% extends 't0' %}{{ b }}"},
+        "macro-calls-itself": {"t0": "{% macro m %}{{ a }}{% call m %}{% endmacro %}{% call m %}"},
+        "chain-400": {**{f"t{i}": "{{ a%d }}{%% include 't%d' %%}" % (i, i + 1) for i in range(400)}, "t400": "x"},
+        "chain-3000": {**{f"t{i}": "{{ a%d }}{%% include 't%d' %%}" % (i, i + 1) for i in range(3000)}, "t3000": "x"},
+        "nested-chain-60-include": {**{f"t{i}": nest_src(28, "{{ a }}{%% include 't%d' %%}" % (i + 1)) for i in range(60)}, "t60": "x"},
+        "nested-chain-60-render": {**{f"t{i}": nest_src(28, "{{ a }}{%% render 't%d' %%}" % (i + 1)) for i in range(60)}, "t60": "x"},
+        "nested-29": {"t0": nest_src(29, "{{ a }}")},
+        "unbalanced": {"t0": "{% if a %}{% for x in y %}{{ x }}{% endif %}"},
+    }
+    jobs, meta = [], []
+    for name, tpl in fams.items():
+        for api in ("analyze", "analyze_async", "analyze_tags"):
+            for caching in (False, True):
+                jobs.append({"job": "analyze", "templates": tpl, "api": api, "caching": caching})
+                meta.append((name, api, caching))
+    results = children(jobs, timeout=120, per=6)
+    ck.extra["F_analysis"] = {}
+    for (name, api, caching), r in zip(meta, results):
+        ck.count(f"F.{api}.{r['outcome']}")
+        ck.note_case(("F", name, api, caching), nontrivial=True)
+        ck.extra["F_analysis"][f"{name}.{api}.{'cached' if caching else 'dict'}"] = r["outcome"]
+        small = name in ("self-include", "self-render", "mutual", "self-include-nested", "self-extends", "circular-extends", "macro-calls-itself",
+                         "chain-400", "nested-29")
+        ok = r["outcome"] == "ok" or (not small and r["outcome"] in ("EContextDepth", "ESyntax", "ELiquid", "EInherit"))
+        if not ok:
+            ck.violation("impl-violation", f"analysis-{r['outcome'].split(':')[0]}:{name}",
+                         f"{api} ({'cached' if caching else 'uncached'} partials) on the family {name} ends in {r['outcome']}",
+                         {"type": "analyze", "templates": tpl, "api": api, "caching": caching,
+                          "want": ["ok"] if small else ["ok", "EContextDepth", "ESyntax", "ELiquid", "EInherit"]})
+
+
 def replay(data) -> int:
     case = data["case"]
     if case.get("type") == "render":
         r = child([{k: v for k, v in case.items() if k in ("templates", "limit", "lax", "async")}], timeout=case.get("wall", 60))[0]
         print("templates:", case["templates"])
         print("outcome:", r, "wanted one of", case["want"])
+        bad = r["outcome"] not in case["want"]
+    elif case.get("type") == "analyze":
+        r = child([{"job": "analyze", "templates": case["templates"], "api": case["api"], "caching": case["caching"]}], timeout=60)[0]
+        print("analysis:", r, "wanted one of", case["want"])
         bad = r["outcome"] not in case["want"]
     elif case.get("type") == "parse":
         r = child([{"job": "parse", "sources": case["sources"], "lax": case["lax"]}], timeout=60)[0]
